@@ -29,8 +29,15 @@ def main():
     r0 = sh("cd /tmp && /venv/bin/python %s %s" % (demo, WT), timeout=900)
     a = sh("git -C %s apply %s" % (WT, os.path.join(seed, "patch.diff")))
     if a.returncode != 0:
-        print("PATCH DOES NOT APPLY:", a.stderr[:300])
-        return 2
+        # the seeded changes were written against d73de8c; later fix: commits may touch the same lines
+        head = "d73de8c"
+        sh("git -C %s checkout -q --detach %s" % (WT, head))
+        r0 = sh("cd /tmp && /venv/bin/python %s %s" % (demo, WT), timeout=900)
+        a = sh("git -C %s apply %s" % (WT, os.path.join(seed, "patch.diff")))
+        if a.returncode != 0:
+            print("PATCH DOES NOT APPLY:", a.stderr[:300])
+            return 2
+        print("   (patch does not apply to /repo HEAD any more; evaluated on its base commit %s)" % head)
     r1 = sh("cd /tmp && /venv/bin/python %s %s" % (demo, WT), timeout=900)
     print("seed %s property=%s demo unchanged=%d patched=%d :: %s" % (os.path.basename(seed), meta["property"], r0.returncode,
                                                                       r1.returncode, meta.get("what", "")[:160]))
